@@ -196,6 +196,10 @@ class TransformationPerformer:
       ]
     consumers = []
     for original_op_id in instruction.consumers:
+      if original_op_id < 0:
+        # -1 denotes the graph output, which is not an operator.
+        consumers.append(-1)
+        continue
       consumers.append(
           self._original_op_id_map[transformation_inst.subgraph_id][
               original_op_id
@@ -218,9 +222,20 @@ class TransformationPerformer:
         transformation_inst.subgraph_id,
         trans_info,
     )
+    op_consumers = [op_id for op_id in instruction.consumers if op_id >= 0]
+    if op_consumers:
+      first_shifted_op_id = min(op_consumers)
+    else:
+      # Only the graph output consumes the tensor: every original op located at
+      # or after the insertion point is shifted.
+      first_shifted_op_id = sum(
+          1
+          for op_id in self._original_op_id_map[transformation_inst.subgraph_id]
+          if op_id < trans_info.op_id
+      )
     self._update_op_id_map(
         transformation_inst.subgraph_id,
-        min(instruction.consumers),
+        first_shifted_op_id,
         trans_info.num_ops_added,
     )
 
